@@ -168,6 +168,63 @@ def source_consts(repo):
     return out
 
 
+def source_shapes(repo, consts):
+    """for every `struct Name<..> {..}` of src/ that has a field of a resource kind: (kinds of its transport / virtqueue /
+    Option<Dma> fields in declaration order, the queue indices of the queue_unset calls of its `impl Drop`, in order)"""
+    out = {}
+    src = os.path.join(repo, 'src')
+    for root, _, files in os.walk(src):
+        for f in sorted(files):
+            if not f.endswith('.rs') or f in ('verif.rs', 'fake.rs'): continue
+            path = os.path.join(root, f)
+            rel = os.path.relpath(path, src)[:-3].replace('/', '_')
+            text = strip_comments(open(path, errors='replace').read())
+            m = re.search(r'#\[cfg\(test\)\]\s*(?:pub\s+)?mod\s+\w+\s*\{', text)
+            if m: text = text[:m.start()]
+            for sm in re.finditer(r'\bstruct\s+([A-Za-z0-9_]+)\s*(<[^{;]*>)?\s*(?:where[^{]*)?\{', text):
+                name = sm.group(1)
+                # body up to the matching brace
+                i = sm.end(); depth = 1
+                while i < len(text) and depth: depth += {'{': 1, '}': -1}.get(text[i], 0); i += 1
+                body = text[sm.end():i - 1]
+                kinds = []
+                # fields: split at top-level commas
+                parts = []; d = 0; cur = ''
+                for ch in body:
+                    if ch in '<([{': d += 1
+                    if ch in '>)]}': d -= 1
+                    if ch == ',' and d == 0: parts.append(cur); cur = ''
+                    else: cur += ch
+                parts.append(cur)
+                for part in parts:
+                    part = re.sub(r'#\[[^\]]*\]', '', part).strip()
+                    fm = re.match(r'^(?:pub(?:\([a-z]+\))?\s+)?([a-z_][A-Za-z0-9_]*)\s*:\s*(.+)$', part, re.S)
+                    if not fm: continue
+                    ty = ' '.join(fm.group(2).split())
+                    if ty == 'T': kinds.append(1)
+                    elif re.match(r'^(VirtQueue|OwningQueue)\s*<', ty): kinds.append(2)
+                    elif re.match(r'^Option\s*<\s*Dma\s*<', ty): kinds.append(3)
+                if not kinds: continue
+                unsets = []
+                dm = re.search(r'impl\s*<[^{]*>\s*Drop\s+for\s+' + name + r'\b[^{]*\{', text)
+                if dm:
+                    i = dm.end(); depth = 1
+                    while i < len(text) and depth: depth += {'{': 1, '}': -1}.get(text[i], 0); i += 1
+                    for um in re.finditer(r'queue_unset\(\s*([^)]+?)\s*\)', text[dm.end():i]):
+                        arg = um.group(1)
+                        scope = {(k.split('__')[1], k.split('__')[2]): v for k, v in consts.items() if k.startswith(rel + '__')}
+                        v = evaluate(arg, scope, '')
+                        if v is None:
+                            # a constant imported from the parent module (net: super::QUEUE_RECEIVE)
+                            cands = [(len(os.path.commonprefix([k, rel])), val) for k, val in consts.items() if k.endswith('____' + arg.split('::')[-1])]
+                            best = max([c[0] for c in cands], default=0)
+                            hits = set(val for c, val in cands if c == best)
+                            v = next(iter(hits)) if len(hits) == 1 else 999
+                        unsets.append(v)
+                out[name] = (kinds, unsets)
+    return out
+
+
 def coq_ident(key): return 'src_' + re.sub(r'\W', '_', key)
 
 
@@ -183,18 +240,25 @@ def main():
     consts = source_consts(repo)
     if mode == 'dump':
         for k in sorted(consts): print('%s = %d' % (k, consts[k]))
+        for k, v in sorted(source_shapes(repo, consts).items()): print('shape %s = %s unsets %s' % (k, v[0], v[1]))
         return 0
     ns = {}
     exec(open(os.path.join(V, 'tools', 'consts_map.py')).read(), ns)
+    shapes = source_shapes(repo, consts)
     pairs = [p for p in ns['PAIRS'] if props is None or props in p[2]]
+    spairs = [p for p in ns.get('SHAPES', []) if props is None or props in p[2]]
     tie = os.path.join(V, 'build', 'tie' + (('_' + props) if props else ''))
     os.makedirs(tie, exist_ok=True)
     with open(os.path.join(tie, 'SrcConsts.v'), 'w') as f:
         f.write('(* GENERATED on every run by tools/srcconsts.py from %s/src: the numeric constants of the source *)\nFrom Coq Require Import NArith.\nOpen Scope N_scope.\n' % repo)
         for k in sorted(consts): f.write('Definition %s : N := %d.\n' % (coq_ident(k), consts[k]))
+        f.write('From Coq Require Import List. Import ListNotations.\n')
+        for k, (kinds, unsets) in sorted(shapes.items()):
+            f.write('Definition src_shape_%s : list N * list N := ([%s], [%s]).\n' % (k, '; '.join(map(str, kinds)), '; '.join(map(str, unsets))))
     present = [p for p in pairs if p[1] in consts]
-    missing = [p[1] for p in pairs if p[1] not in consts]
-    mods = sorted(set(m for p in present for m in re.findall(r'\b((?:Model|Base)\.[A-Za-z0-9_]+)\.', p[0])))
+    missing = [p[1] for p in pairs if p[1] not in consts] + ['struct ' + p[1] for p in spairs if p[1] not in shapes]
+    spresent = [p for p in spairs if p[1] in shapes]
+    mods = sorted(set(m for p in present + spresent for m in re.findall(r'\b((?:Model|Base)\.[A-Za-z0-9_]+)\.', p[0])))
     with open(os.path.join(tie, 'ConstsTie.v'), 'w') as f:
         f.write('(* GENERATED by tools/srcconsts.py from tools/consts_map.py: model constant = source constant, decided by the kernel *)\n')
         f.write('From Coq Require Import NArith List Bool.\nImport ListNotations.\n')
@@ -203,7 +267,12 @@ def main():
         f.write('Definition ties : list (N * (N * N)) := [\n')
         f.write(';\n'.join('  (%d, (%s, SrcConsts.%s))' % (j, re.sub(r'\b(Model|Base)\.', r'VD.\1.', p[0]), coq_ident(p[1])) for j, p in enumerate(present)))
         f.write('].\nDefinition differ := filter (fun t => negb (fst (snd t) =? snd (snd t))) ties.\nEval vm_compute in differ.\n')
-        f.write('(* the obligation itself: it only type-checks when every pair is equal *)\nTheorem consts_tie : differ = [].\nProof. vm_compute. reflexivity. Qed.\n')
+        f.write('(* declarations: field order of the driver structs and the queue_unset calls of their Drop impls *)\n')
+        f.write('Fixpoint leqb (a b : list N) : bool := match a, b with [], [] => true | x :: a\', y :: b\' => (x =? y) && leqb a\' b\' | _, _ => false end.\n')
+        f.write('Definition shape_ties : list (N * ((list N * list N) * (list N * list N))) := [\n')
+        f.write(';\n'.join('  (%d, (%s, SrcConsts.src_shape_%s))' % (1000 + j, re.sub(r'\b(Model|Base)\.', r'VD.\1.', p[0]), p[1]) for j, p in enumerate(spresent)))
+        f.write('].\nDefinition shape_differ := map fst (filter (fun t => negb (leqb (fst (fst (snd t))) (fst (snd (snd t))) && leqb (snd (fst (snd t))) (snd (snd (snd t))))) shape_ties).\nEval vm_compute in shape_differ.\n')
+        f.write('(* the obligation itself: it only type-checks when every pair is equal *)\nTheorem consts_tie : differ = [] /\\ shape_differ = [].\nProof. vm_compute. split; reflexivity. Qed.\n')
     r1 = subprocess.run(['coqc', '-noglob', '-R', tie, '', os.path.join(tie, 'SrcConsts.v')], capture_output=True, text=True, cwd=tie)
     r2 = subprocess.run(['coqc', '-noglob', '-Q', os.path.join(V, 'coq', 'theories'), 'VD', '-R', tie, '', os.path.join(tie, 'ConstsTie.v')],
                         capture_output=True, text=True, cwd=tie)
@@ -213,7 +282,13 @@ def main():
         print('CONSTS pairs=%d error=%s' % (len(pairs), (r1.stderr + out)[-400:])); return 2
     bad = re.findall(r'\((\d+),\s*\((\d+),\s*(\d+)\)\)', m.group(1))
     mism = ['%s model=%s source(%s)=%s' % (present[int(j)][0], a, present[int(j)][1], b) for j, a, b in bad]
-    print('CONSTS pairs=%d equal=%d missing=[%s] mismatch=[%s]' % (len(pairs), len(present) - len(mism), ', '.join(missing), '; '.join(mism)))
+    m2 = re.search(r'=\s*(\[[^\]]*\])\s*:\s*list N', out)
+    if not m2:
+        print('CONSTS pairs=%d error=%s' % (len(pairs), out[-400:])); return 2
+    for j in re.findall(r'\d+', m2.group(1)):
+        sp = spresent[int(j) - 1000]
+        mism.append('field order / Drop of struct %s: source %s, model %s differs' % (sp[1], shapes[sp[1]], sp[0]))
+    print('CONSTS pairs=%d equal=%d missing=[%s] mismatch=[%s]' % (len(pairs) + len(spairs), len(present) + len(spresent) - len(mism), ', '.join(missing), '; '.join(mism)))
     return 1 if mism else 0
 
 
